@@ -167,9 +167,43 @@ def _annotate_closure(text, args, payload):
     (ps, pe, b, e) = cl[nth - 1]
     body = text[b:e]
     spec = ' '.join(p.strip() for p in payload)
+    # parameter names: `$1`, `$2`.. in the annotation stand for them, so that renaming a closure parameter in the real
+    # code does not lose the annotation.  A dereferencing parameter pattern `|&x|` (which Verus rejects) becomes the plain
+    # parameter `|x|` plus `let x = *x;` at the start of the body - the same binding, written as a statement.
+    params, names, derefs = [], [], []
+    depth, cur = 0, ''
+    for ch in text[ps + 1:pe] + ',':
+        if ch in '([<':
+            depth += 1
+        elif ch in ')]>':
+            depth -= 1
+        if ch == ',' and depth == 0:
+            if cur.strip():
+                params.append(cur.strip())
+            cur = ''
+        else:
+            cur += ch
+    new_params = []
+    for prm in params:
+        mm = re.match(r'^&\s*([A-Za-z_][A-Za-z0-9_]*)\s*(:.*)?$', prm)
+        if mm:
+            names.append(mm.group(1))
+            derefs.append(mm.group(1))
+            new_params.append(mm.group(1) + (mm.group(2) or ''))
+        else:
+            mm2 = re.match(r'^(?:mut\s+)?([A-Za-z_][A-Za-z0-9_]*)\s*(:.*)?$', prm)
+            names.append(mm2.group(1) if mm2 else prm)
+            new_params.append(prm)
+    for k, nm in enumerate(names):
+        spec = spec.replace('$%d' % (k + 1), nm)
+    pre = ''.join('let %s = *%s; ' % (d, d) for d in derefs)
     if not body.lstrip().startswith('{'):
-        body = '{ ' + body.rstrip() + ' }' + body[len(body.rstrip()):]
-    return text[:pe + 1] + ' -> (' + m.group(2) + ') ' + spec + ' ' + body + text[e:]
+        body = '{ ' + pre + body.rstrip() + ' }' + body[len(body.rstrip()):]
+    elif pre:
+        k = body.index('{')
+        body = body[:k + 1] + ' ' + pre + body[k + 1:]
+    ptxt = text[ps:pe + 1] if not derefs else '|' + ', '.join(new_params) + '|'
+    return text[:ps] + ptxt + ' -> (' + m.group(2) + ') ' + spec + ' ' + body + text[e:]
 
 
 def _name_for_iterator(text, args, fnname):
